@@ -70,7 +70,15 @@ theorem escMod_value (f : Bytes → Bytes) (val : Val) (args : List ArgVal) (b :
 /-- The iteration count is the modifier's first (literal) argument; no argument means one pass. -/
 theorem iterations_default : printIterations [] = 1 := rfl
 theorem iterations_arg (b : Bytes) :
-    printIterations [.pos (.bytes b)] = (match parseIntLit b with | some n => n.toNat | none => 1) := rfl
+    printIterations [.pos (.bytes b)] = (match parseIntLit b with | some n => max 1 n.toNat | none => 1) := rfl
+
+/-- **An escape modifier that is asked for escapes at least once**, whatever its count argument is — a literal, or
+    text that comes from the data (repair: `htmlEscape(n)` with `n = "0"` or `"-1"` returned its input untouched). -/
+theorem iterations_positive (args : List ArgVal) : 1 ≤ printIterations args := by
+  unfold printIterations
+  split
+  · split <;> omega
+  · omega
 
 /-! Non-vacuity: a two-modifier chain on a concrete context. -/
 example :
